@@ -294,6 +294,336 @@ Qed.
 Print Assumptions C07_stale_ack_refuted.
 (* ---- end block: two-endpoint composition ---- *)
 
+(* ---- begin block: message level (Model/Net3.v, Proofs/MsgSendP.v MsgRecvP.v MsgNetP.v) ---- *)
+From Model Require Import RecvHist Net3.
+From Proofs Require Import RecvHistP MsgRecvP MsgSendP MsgFragP MsgNetP.
+
+(* 5m. "Success means the WHOLE MESSAGE was handed to the peer application", for unfragmented
+      messages, as ONE theorem over joint histories of the two endpoints.  Net3 adds to Net2's ghost:
+        m_sent  every (payload, id) the application of A passed to send() with a user callback id;
+        m_st    B's message window over true message indices (C04's RecvHist.wstate, the specification
+                of the 256-bit window c_bf_msg) and, for every index that got past it, the (type,
+                payload) of the message processed under that index;
+      and labels each event with a list js of message indices: when B accepts a datagram, js are the
+      sender's true (unbounded) message indices of the messages dg_msgs d of that datagram.
+      Schedule hypotheses per event (Net3.wf3_ev): Net2's (auth), (near), (fresh), and
+       for A: the application passes a user callback or none to send() (payloads of ANY size and
+              retry mode: fragmented sends may be interleaved);
+       for B, when it accepts a datagram, message by message (Net3.mwf):
+         (label)    the wire number of the message is wire j, j >= 1;
+         (msg-near) j is within HALF of the newest message index B has processed (C08's half-range
+                    hypothesis for the message window);
+         (truthful) a message labelled j carries the (type, payload) processed under j before (labels
+                    are the sender's message indices: a RetrySender copy is byte-identical — part of
+                    the sender invariant below — and different messages have different indices);
+         (no-raise) if the datagram carries a handshake-typed message (has_hs): processing it raises
+                    no exception (recv_msgs stops at the first exception: a handshake message whose
+                    verification fails hides the messages behind it in the same datagram — 5m.7 shows
+                    this hypothesis cannot be dropped).  Datagrams of A without handshake messages never
+                    raise: part of the invariant is that every fragment A emits carries its 6-byte header.
+      The joint invariant J3 S K M = Net2's J + Inc +
+        sender   every message A keeps (queue, re-send store) and every RetrySender it has registered
+                 satisfies QmS: a user callback IUser id sits on an APP message whose payload p was
+                 passed to send() with id ((p, id) in m_sent), plain or wrapped (the wrapper carries
+                 the same message sequence number, type and payload: what it re-queues on time-out is
+                 that message); every key of pending_callbacks is a pending datagram; and (CInv) for
+                 every datagram (i, dA) on the wire with a recent index, the callbacks registered for
+                 wire i belong to messages dA carries (5m.3);
+        receiver the window ghost refines c_bf_msg (RecvHistP.W), every index let through has a record,
+                 every APP payload recorded — and every APP message of every datagram B has accepted
+                 (g_accB) — is in dlvB (handed to B's application).
+      It holds initially — through the handshake — and is preserved by every event. *)
+Theorem C07_msg_invariant_fresh : forall S, 0 < S -> S <= 256 -> TICKS < (RING - 1) * S -> J3 S 0 mnet0.
+Proof. exact J3_mnet0. Qed.
+Print Assumptions C07_msg_invariant_fresh.
+
+Theorem C07_msg_invariant : forall e S K vs M, 0 <= e_max_payload e -> J3 S K M -> wf3_run e M vs -> J3 S K (mrun e M vs).
+Proof. exact J3_run. Qed.
+Print Assumptions C07_msg_invariant.
+
+(* 5m.3 (a) the sender's custody link: a user callback (plain, or wrapped by a RetrySender) registered
+      in pending_callbacks for the sequence number of a recent datagram dA on the wire travels with an
+      APP message INSIDE dA whose payload is the one the application passed to send() with that id *)
+Theorem C07_sender_custody : forall M i dA ks k id,
+  SInv M -> In (i, dA) (g_AB (m_g M)) -> g_nA (m_g M) - i < RING - 1 ->
+  dget (wire i) (c_pcbs (nA (g_net (m_g M)))) = Some ks -> In k ks -> cb_user k id ->
+  exists w, In w (dg_msgs dA) /\ w_type w = APP /\ In (w_payload w, id) (m_sent M).
+Proof. exact custody_meaning. Qed.
+Print Assumptions C07_sender_custody.
+
+(* 5m.4 (b) the receiver at message level (also C04/C05's receiver half): processing the messages ws
+      of an accepted datagram, labelled js as above, without exception: the window ghost is
+      maintained, and every APP message of the datagram is appended to incoming_messages in this very
+      call — or its index had been let through before, recorded with this very (type, payload) *)
+Theorem C07_receiver_delivers : forall ws js c now orcs st c' o,
+  length js = length ws -> W 256 (c_bf_msg c) (fst st) -> recorded st -> mwf st (combine ws js) ->
+  recv_msgs c now ws orcs = (c', o) -> raised o = false ->
+  let st' := fold_left mrec (combine ws js) st in
+  W 256 (c_bf_msg c') (fst st') /\ recorded st' /\
+  exists extra, c_incoming c' = c_incoming c ++ extra /\
+    (forall j c0, In (j, c0) (snd st') ->
+       In (j, c0) (snd st) \/
+       exists w, In w ws /\ content w = c0 /\ (w_type w = APP -> In (w_payload w) (map snd extra))) /\
+    (forall w, In w ws -> w_type w = APP ->
+       In (w_payload w) (map snd extra) \/ exists j, In (j, content w) (snd st)).
+Proof. exact recv_msgs_deliver. Qed.
+Print Assumptions C07_receiver_delivers.
+
+(*      ... and a datagram without handshake-typed messages whose fragments carry their 6-byte header
+      is processed without exception (so (no-raise) speaks about handshake-carrying datagrams only) *)
+Theorem C07_no_handshake_no_exception : forall ws c now orcs c' o,
+  has_hs ws = false -> Forall frag_ok ws -> recv_msgs c now ws orcs = (c', o) -> raised o = false.
+Proof. exact recv_msgs_noraise. Qed.
+Print Assumptions C07_no_handshake_no_exception.
+
+(*      Fragmented sends: a fragment-sender context in pending_fragments holding user callback id only
+      ever comes from a send() of an oversized payload with that id (PFInv: holds initially, preserved
+      by EVERY event, no hypothesis). *)
+Theorem C07_frag_contexts_from_big_sends : forall e vs M,
+  PFInv e mnet0 /\ (PFInv e M -> PFInv e (mrun e M vs)).
+Proof. intros e vs M. split; [apply PFInv_mnet0|apply PFInv_run]. Qed.
+Print Assumptions C07_frag_contexts_from_big_sends.
+
+(* 5m.5 (c) THE theorem: whenever a step of A reports success for callback id, then EITHER id was passed
+      to send() with a payload that needs fragmenting (big_id: the report comes from the collector of a
+      fragmented send — not covered here), OR (delivered_as) a payload p that A's application passed to
+      send() together with id HAS BEEN HANDED to B's application before this moment (p in dlvB): it
+      travelled as an APP message w of a datagram dA that A put on the wire as index i and that B has
+      accepted. *)
+Theorem C07_success_means_delivered : forall e S K M vs x l js a' o id,
+  0 <= e_max_payload e -> J3 S K M -> PFInv e M -> wf3_run e M (vs ++ [((NA x, l), js)]) ->
+  let M' := mrun e M vs in
+  step e (nA (g_net (m_g M'))) x = (a', o) -> In (OCallback id true) o ->
+  (exists p, In (p, id) (m_sent M') /\ len p > e_max_payload e) \/
+  exists p i dA w,
+    In (p, id) (m_sent M') /\ In p (dlvB (g_net (m_g M'))) /\
+    In (i, dA) (g_AB (m_g M')) /\ In dA (wAB (g_net (m_g M'))) /\ In dA (g_accB (m_g M')) /\
+    In w (dg_msgs dA) /\ w_type w = APP /\ w_payload w = p.
+Proof. exact success_means_delivered. Qed.
+Print Assumptions C07_success_means_delivered.
+
+(* 5m.6 ... and if the application does not reuse callback ids: THE payload p passed with id in an
+      UNFRAGMENTED send (len p <= e_max_payload) has been handed to B's application *)
+Theorem C07_success_means_delivered_unique : forall e S K M vs x l js a' o id p,
+  0 <= e_max_payload e -> J3 S K M -> PFInv e M -> wf3_run e M (vs ++ [((NA x, l), js)]) ->
+  let M' := mrun e M vs in
+  NoDup (map snd (m_sent M')) -> In (p, id) (m_sent M') -> len p <= e_max_payload e ->
+  step e (nA (g_net (m_g M'))) x = (a', o) -> In (OCallback id true) o ->
+  In p (dlvB (g_net (m_g M'))).
+Proof. exact success_means_delivered_unique. Qed.
+Print Assumptions C07_success_means_delivered_unique.
+
+(* non-vacuity, from the initial pair through the handshake (the history of
+   C07_success_means_accepted_example with message labels: B's accepted datagrams carry message 1
+   (CLIENT_HELLO), 2 (CHALLENGE_RESP), 3 (APP "AB")): every hypothesis holds, callback 5 fires with
+   True, and "AB" is in dlvB *)
+Definition lab (js : list (list Z)) (vs : list lev) : list lev3 := combine vs js.
+Definition hm1 := lab [[]; []] hn1.
+Definition hm2 := lab [[1]; []] hn2.
+Definition hm3 := lab [[]] hn3.
+Definition hm4 := lab [[2]; []; []] hn4.
+Definition hm5 := lab [[3]; []] hn5.
+Definition hm := hm1 ++ hm2 ++ hm3 ++ hm4 ++ hm5.
+Definition Mn5 := mrun env_n mnet0 hm.
+
+Ltac mwf_goal :=
+  repeat match goal with
+  | |- _ /\ _ => split
+  | |- True => exact I
+  | |- _ = _ => reflexivity
+  | |- _ <= _ => (vm_compute; discriminate)
+  | |- _ = Gt -> False => let H := fresh in intro H; discriminate H
+  | |- forall c, _ -> _ => let c := fresh "c" in let H := fresh "H" in intros c H; vm_compute in H;
+        repeat (destruct H as [H|H]; [try discriminate H; try congruence|]); try destruct H
+  end.
+
+Ltac msg_goal :=
+  match goal with
+  | |- user_x _ => exact I
+  | |- forall d, accepts ?C ?X = Some d -> _ =>
+      let d := fresh "d" in let Hd := fresh "Hd" in intros d Hd;
+      let r := eval vm_compute in (accepts C X) in
+      match r with
+      | None => exfalso; assert (Hn : accepts C X = None) by (vm_compute; reflexivity); congruence
+      | Some ?D => assert (Hs : accepts C X = Some D) by (vm_compute; reflexivity);
+                   assert (d = D) as -> by congruence; clear Hd Hs
+      end
+  end.
+
+
+Example C07_success_means_delivered_example :
+  J3 256 0 mnet0 /\ wf3_run env_n mnet0 (hm ++ [((NA xn6, 0), [])]) /\
+  m_g Mn5 = Gn5 /\ m_sent Mn5 = [([x41; x42], 5)] /\
+  m_st Mn5 = (Some (3, [3; 2; 1]), [(3, (APP, [x41; x42])); (2, (CHALLENGE_RESP, [x0a; x0b])); (1, (CLIENT_HELLO, [x01; x02]))]) /\
+  dg_msgs (lastAB Gn4) = [{| w_seq := 3; w_type := APP; w_payload := [x41; x42] |}] /\
+  In (OCallback 5 true) (snd (step env_n (nA (g_net (m_g Mn5))) xn6)) /\
+  dlvB (g_net (m_g Mn5)) = [[x41; x42]].
+Proof.
+  split; [apply J3_mnet0; [reflexivity|intro H; discriminate H|reflexivity]|].
+  split.
+  { apply wf3x_run_split. split.
+    - replace (map fst (hm ++ [(NA xn6, 0, [])])) with (hn ++ [(NA xn6, 0)]) by (vm_compute; reflexivity).
+      destruct C07_success_means_accepted_example as (_ & _ & _ & Hwf & _); exact Hwf.
+    - unfold hm, hm1, hm2, hm3, hm4, hm5, lab, hn1, hn2, hn3, hn4, hn5. cbn [combine app msg_run].
+      repeat match goal with |- _ /\ _ => split | |- True => exact I end.
+      all: unfold msg_ev; cbn [fst snd].
+      all: msg_goal.
+      all: try (split; [vm_compute; reflexivity|split; [|intros _ _; vm_compute; reflexivity]]).
+      all: vm_compute; mwf_goal. }
+  vm_compute. repeat split; auto 10.
+Qed.
+
+
+(* 5m.7 The (no-raise) hypothesis cannot be dropped from a state satisfying the invariant.  Witness: the
+      state after B's SERVER_HELLO in the history above, with B's status CONNECTED (J3 does not look at
+      it: J3_with_B).  The SERVER_HELLO reaches A less than a send interval after its hello, so the
+      CHALLENGE_RESP stays queued; the application sends "AB" with callback 5; A's next datagram
+      (index 2) carries [CHALLENGE_RESP; APP "AB"].  B accepts it, the challenge response does not
+      verify (oracle answer: ValueError), _recv_datagram raises and "AB" is never looked at; B's
+      keep-alive acknowledges datagram 2 and callback 5 reports True with dlvB = [].  (From the
+      INITIAL pair such a B never becomes CONNECTED — only a verified challenge response makes it so —
+      and then emits nothing that could acknowledge; not reachable on the real endpoints.) *)
+Definition orc_bad : hs_oracle :=
+  {| o_parse := 1; o_version_ok := true; o_token := 99; o_key := 7; o_reply := [x0a; x0b]; o_temp_token := Some 99 |}.
+Definition Mn2 := mrun env_n mnet0 (hm1 ++ hm2).
+Definition M_w : mnet := with_B Mn2 ((nB (g_net (m_g Mn2))) <| c_status := CONNECTED |>).
+Definition lastABm (M : mnet) : dgram := lastAB (m_g M).
+Definition lastBAm (M : mnet) : dgram := lastBA (m_g M).
+Definition hw1 : list lev3 :=
+  [((NA (EClientTick 2100 (RxDgram (lastBAm M_w) [orc_n])), 0), []);
+   ((NA (ESend [x41; x42] RNone (IUser 5)), 0), []);
+   ((NA (EClientTick 3000 RxNone), 0), [])].
+Definition Mw1 := mrun env_n M_w hw1.
+Definition hw2 : list lev3 := [((NB (ERecv 6000 (lastABm Mw1) [orc_bad]), 2), [2; 3]); ((NB (EServerTick 7000), 0), [])].
+Definition Mw2 := mrun env_n Mw1 hw2.
+Definition xw3 : ev := EClientTick 8000 (RxDgram (lastBAm Mw2) []).
+
+Theorem C07_delivered_needs_noraise_refuted : exists M vs x,
+  J3 256 0 M /\ noraise_free_run env_n M (vs ++ [((NA x, 0), [])]) /\
+  In (OCallback 5 true) (snd (step env_n (nA (g_net (m_g (mrun env_n M vs)))) x)) /\
+  m_sent (mrun env_n M vs) = [([x41; x42], 5)] /\ dlvB (g_net (m_g (mrun env_n M vs))) = [] /\
+  snd (step env_n (nB (g_net (m_g Mw1))) (ERecv 6000 (lastABm Mw1) [orc_bad])) = [ORaise EValue].
+Proof.
+  exists M_w, (hw1 ++ hw2), xw3.
+  destruct C07_success_means_delivered_example as (HJ0 & Hwf & _).
+  assert (HJw : J3 256 0 M_w).
+  { apply (J3_with_B_status 256 0 Mn2 CONNECTED).
+    assert (W2 : wf3_run env_n mnet0 (hm1 ++ hm2)).
+    { unfold hm in Hwf. rewrite <- !app_assoc in Hwf. rewrite (app_assoc hm1 hm2) in Hwf. apply wf3_run_app in Hwf as [W _]. exact W. }
+    (apply (J3_run env_n 256 0 (hm1 ++ hm2) mnet0); [vm_compute; discriminate|exact HJ0|exact W2]). }
+  split; [exact HJw|]. split.
+  { apply wf3x_run_split. split.
+    - (apply (auth_run_wf2 _ 256 0); [apply HJw|]).
+      unfold hw1, hw2, xw3. cbn [map fst app auth_run auth_ev ev_open2].
+      (repeat match goal with |- _ /\ _ => split end; try exact I;
+        try (match goal with |- _ <= _ => vm_compute; discriminate end)).
+      all: ev_goal. all: fin_goal.
+    - unfold hw1, hw2. cbn [app msg_run].
+      repeat match goal with |- _ /\ _ => split | |- True => exact I end.
+      all: unfold msg_ev; cbn [fst snd].
+      all: msg_goal.
+      all: try (split; [vm_compute; reflexivity|split; [|intros H; discriminate H]]).
+      all: vm_compute; mwf_goal. }
+  vm_compute. repeat split; auto 10.
+Qed.
+Print Assumptions C07_delivered_needs_noraise_refuted.
+
+(* 5m.8 Short sessions: the hypotheses on B's message labels hold by themselves.  The sender's half:
+      A gives its j-th message the sequence number wire j and every copy of it — in the queue, in the
+      re-send store, inside a RetrySender, in any datagram on the wire — carries the (type, payload)
+      of the j-th message (ghost table T, MsgSeqP.TInv: it holds initially and is preserved together
+      with J3).  So while A has created at most HALF messages (stats.sent <= HALF) and consumed at
+      most HALF + 1 datagram numbers, with every message B processes labelled by its OWN wire number
+      (js = map w_seq (dg_msgs d)), (label), (msg-near), (truthful) and — as in C07_short_sessions —
+      (near), (fresh) are automatic: (auth), (no-raise) and user callbacks (short3_ev) suffice. *)
+From Proofs Require Import MsgSeqP.
+
+Theorem C07_msg_table_fresh : TInv mnet0.
+Proof. exact TInv_mnet0. Qed.
+Print Assumptions C07_msg_table_fresh.
+
+Theorem C07_short_sessions_msg : forall e S K vs M,
+  0 <= e_max_payload e -> J3 S K M -> TInv M -> short3_run e M vs ->
+  wf3_run e M vs /\ J3 S K (mrun e M vs) /\ TInv (mrun e M vs).
+Proof.
+  intros e S K vs M He HJ HT Hs. split; [eapply short3_run_wf3; eassumption|eapply short3_run_inv; eassumption].
+Qed.
+Print Assumptions C07_short_sessions_msg.
+
+Theorem C07_short_success_means_delivered : forall e S K M vs x l js a' o id,
+  0 <= e_max_payload e -> J3 S K M -> PFInv e M -> TInv M -> short3_run e M (vs ++ [((NA x, l), js)]) ->
+  let M' := mrun e M vs in
+  step e (nA (g_net (m_g M'))) x = (a', o) -> In (OCallback id true) o ->
+  (exists p, In (p, id) (m_sent M') /\ len p > e_max_payload e) \/
+  exists p i dA w,
+    In (p, id) (m_sent M') /\ In p (dlvB (g_net (m_g M'))) /\
+    In (i, dA) (g_AB (m_g M')) /\ In dA (wAB (g_net (m_g M'))) /\ In dA (g_accB (m_g M')) /\
+    In w (dg_msgs dA) /\ w_type w = APP /\ w_payload w = p.
+Proof. exact short_success_means_delivered. Qed.
+Print Assumptions C07_short_success_means_delivered.
+
+(*    ... the sender half spelled out on the wire: two messages with the same message sequence number
+      in datagrams A has emitted are the same message (a retransmitted copy carries the SAME number
+      and the SAME payload; different messages carry different numbers) *)
+Theorem C07_retransmission_same : forall M i d w i' d' w',
+  TInv M -> c_sent (nA (g_net (m_g M))) <= HALF ->
+  In (i, d) (g_AB (m_g M)) -> In w (dg_msgs d) -> In (i', d') (g_AB (m_g M)) -> In w' (dg_msgs d') ->
+  w_seq w = w_seq w' -> w_type w = w_type w' /\ w_payload w = w_payload w'.
+Proof. exact retransmission_same. Qed.
+Print Assumptions C07_retransmission_same.
+
+(* non-vacuity: the handshake history above, labelled with the wire numbers, is a short session *)
+Example C07_short_sessions_msg_example :
+  TInv mnet0 /\ short3_run env_n mnet0 (hm ++ [((NA xn6, 0), [])]).
+Proof.
+  split; [exact TInv_mnet0|].
+  unfold hm, hm1, hm2, hm3, hm4, hm5, lab, hn1, hn2, hn3, hn4, hn5, xn6. cbn [combine app short3_run].
+  unfold short3_ev. cbn [fst snd auth_ev ev_open2].
+  repeat match goal with |- _ /\ _ => split | |- True => exact I end;
+    try (match goal with |- _ <= _ => vm_compute; discriminate end).
+  all: try (msg_goal; try (split; [vm_compute; reflexivity|intros _; vm_compute; reflexivity])).
+  all: ev_goal. all: fin_goal.
+Qed.
+
+(* non-vacuity of the duplicate branch: a guaranteed send ("AB", callback 5, message number 3) goes out
+   in datagram 3, which B accepts and delivers; B's acknowledgement is lost; a keep-alive interval
+   later the re-send store puts a copy — SAME message number 3, same payload — into datagram 4; B
+   accepts datagram 4, its message window flags number 3 and nothing is delivered twice (the ghost
+   does not change); B's keep-alive acknowledges 4 and 3, both registered for the same RetrySender:
+   callback 5 reports True exactly once, and "AB" is in dlvB exactly once.  A short session. *)
+Definition Mr3 := mrun env_n mnet0 (hm1 ++ hm2 ++ hm3).
+Definition hr4 : list lev3 :=
+  [((NB (ERecv 6000 (lastABm Mr3) [orc_n]), 2), [2]); ((NA (ESend [x41; x42] RTimeout (IUser 5)), 0), []);
+   ((NA (EClientTick 7000 RxNone), 0), [])].
+Definition Mr4 := mrun env_n Mr3 hr4.
+Definition hr5 : list lev3 := [((NB (ERecv 8000 (lastABm Mr4) []), 3), [3]); ((NA (EClientTick 9000 RxNone), 0), [])].
+Definition Mr5 := mrun env_n Mr4 hr5.
+Definition hr6 : list lev3 := [((NB (ERecv 10000 (lastABm Mr5) []), 4), [3]); ((NB (EServerTick 11000), 0), [])].
+Definition Mr6 := mrun env_n Mr5 hr6.
+Definition xr7 : ev := EClientTick 12000 (RxDgram (lastBAm Mr6) []).
+Definition hr : list lev3 := hm1 ++ hm2 ++ hm3 ++ hr4 ++ hr5 ++ hr6.
+
+Example C07_retransmitted_copy_delivered_once_example :
+  short3_run env_n mnet0 (hr ++ [((NA xr7, 0), [])]) /\
+  dg_msgs (lastABm Mr4) = [{| w_seq := 3; w_type := APP; w_payload := [x41; x42] |}] /\
+  dg_msgs (lastABm Mr5) = [{| w_seq := 3; w_type := APP; w_payload := [x41; x42] |}] /\
+  h_seq (d_hdr (lastABm Mr4)) = 3 /\ h_seq (d_hdr (lastABm Mr5)) = 4 /\
+  fst (m_st Mr5) = Some (3, [3; 2; 1]) /\ m_st Mr6 = m_st Mr5 /\
+  dlvB (g_net (m_g Mr6)) = [[x41; x42]] /\ mrun env_n mnet0 hr = Mr6 /\
+  filter (fun o => match o with OCallback _ _ => true | _ => false end) (snd (step env_n (nA (g_net (m_g Mr6))) xr7))
+    = [OCallback 5 true].
+Proof.
+  split.
+  { unfold hr, hm1, hm2, hm3, hr4, hr5, hr6, lab, hn1, hn2, hn3, xr7. cbn [combine app short3_run].
+    unfold short3_ev. cbn [fst snd auth_ev ev_open2].
+    repeat match goal with |- _ /\ _ => split | |- True => exact I end;
+      try (match goal with |- _ <= _ => vm_compute; discriminate end).
+    all: try (msg_goal; try (split; [vm_compute; reflexivity|intros _; vm_compute; reflexivity])).
+    all: ev_goal. all: fin_goal. }
+  vm_compute. repeat split; auto 10.
+Qed.
+(* ---- end block: message level ---- *)
+
 (* Invariant used by 1 (fragment sender contexts kept in pending_fragments are never complete):
    it holds initially and is preserved by the callback machinery and the receive path. *)
 Theorem C07_inc_fresh : forall b, Inc (conn0 b).
